@@ -118,14 +118,17 @@ def l5_local_bin_size_e2(tier='quick', case=None, seed=0):
 
 _T = {'quick': 200, 'thorough': 1200}
 _split = lambda Ls, nbs: [dict(id='L%d_nb%d' % (L, nb), pre=['L == %d' % L, 'nb == %d' % nb]) for L in Ls for nb in nbs]
+# two blacklist intervals: split on their relative order and on whether the first one starts inside the region
+_split2 = lambda Ls: [dict(id='L%d_nb2_%s' % (L, nm), pre=['L == %d' % L, 'nb == 2'] + pre) for L in Ls for nm, pre in (
+    ('a_first_low', ['a0 <= b0', 'a0 <= 2']), ('a_first_high', ['a0 <= b0', 'a0 > 2']), ('b_first_low', ['b0 < a0', 'b0 <= 2']), ('b_first_high', ['b0 < a0', 'b0 > 2']))]
 LEMMAS = [
     dict(name='L1_fill_range', fn='_l1_fill', engine='E1', timeout=_T, replay='replay.C17:replay'),
     dict(name='L3_partition', fn='_l3_partition', engine='E1', timeout=_T, replay='replay.C17:replay',
          cases={'quick': _split((1, 2, 3, 4, 5), (0, 1)) + _split((6, 7, 8), (0,)) + _split((2, 3, 4), (2,)),
                 'thorough': _split((1, 2, 3, 4, 5, 6, 7, 8), (0, 1, 2))}),
     dict(name='L4_fetch_windows', fn='_l4_windows', engine='E1', timeout=_T, replay='replay.C17:replay',
-         cases={'quick': _split((1, 2, 3, 4, 5), (0, 1)) + _split((6, 7, 8, 9, 10, 11, 12), (0,)) + _split((3, 4), (2,)),
-                'thorough': _split((1, 2, 3, 4, 5, 6, 7, 8), (0, 1, 2))}),
+         cases={'quick': _split((1, 2, 3, 4, 5), (0, 1)) + _split((6, 7, 8, 9, 10, 11, 12), (0,)) + _split2((3, 4)),
+                'thorough': _split((1, 2, 3, 4, 5, 6, 7, 8), (0, 1)) + _split2((1, 2, 3, 4, 5, 6, 7, 8))}),
     dict(name='L5_local_bin_size_unbounded', run='l5_local_bin_size_e2', engine='E2', timeout=_T, replay='replay.C17:replay'),
     dict(name='L6_bp_chunked', fn='_l6_chunked', engine='E1', timeout=_T, replay='replay.C17:replay'),
 ]
